@@ -43,6 +43,8 @@ type MOp struct {
 	// ConstIteratorFrom(i,j) + GetConst() (the same ITERATOR_FROM at HEAD, the same model operation)
 	V   int  `json:"v,omitempty"`
 	Bad bool `json:"bad,omitempty"`
+	// PermuteRows / PermuteColumns / SymPerm: the argument pi
+	PI []int64 `json:"pi,omitempty"`
 }
 type MCase struct {
 	Type string `json:"type"`
@@ -169,6 +171,18 @@ func (w *MWorld) execOne(o MOp) (kind int64, payload []int64) {
 		if err := m.SwapColumns(int(o.I), int(o.J)); err != nil {
 			kind = K_ERR
 		}
+	case "PermuteRows":
+		if err := m.PermuteRows(ints(o.PI)); err != nil {
+			kind = K_ERR
+		}
+	case "PermuteColumns":
+		if err := m.PermuteColumns(ints(o.PI)); err != nil {
+			kind = K_ERR
+		}
+	case "SymPerm":
+		if err := m.SymmetricPermutation(ints(o.PI)); err != nil {
+			kind = K_ERR
+		}
 	case "T":
 		w.M = append(w.M, m.T())
 	case "Tip":
@@ -238,15 +252,34 @@ func (w *MWorld) execOne(o MOp) (kind int64, payload []int64) {
 		r, c := m.Dims()
 		payload = append(payload, int64(r), int64(c))
 	case "Row":
-		payload = observeVec(m.Row(int(o.I))).Flat
+		v := m.Row(int(o.I))
+		payload = observeVec(v).Flat
+		writeThrough(v)
 	case "Col":
-		payload = observeVec(m.Col(int(o.I))).Flat
+		v := m.Col(int(o.I))
+		payload = observeVec(v).Flat
+		writeThrough(v)
 	case "Diag":
-		payload = observeVec(m.Diag()).Flat
+		v := m.Diag()
+		payload = observeVec(v).Flat
+		writeThrough(v)
 	default:
 		Die("unknown matrix op %s", o.Op)
 	}
 	return
+}
+
+// writeThrough overwrites every stored element of a vector returned by Row / Col / Diag.  The vector
+// is FRESH (PropsMatRow.v: every scalar it holds was allocated by the call), so this must not be
+// visible in any matrix: the world observation taken after the operation is compared with the
+// model's, whose world is untouched by Row / Col / Diag.
+func writeThrough(v ad.Vector) {
+	defer func() { recover() }()
+	for j := 0; j < v.Dim(); j++ {
+		if v.ConstAt(j).GetFloat64() != 0 {
+			v.At(j).SetFloat64(77)
+		}
+	}
 }
 
 // ---------------------------------------------------------------- observation
@@ -364,12 +397,18 @@ func mexecute(c MCase) []Out {
 
 func coqMOp(o MOp) string {
 	switch o.Op {
+	case "PermuteRows":
+		return fmt.Sprintf("MPermRows %d %s", o.T, ZList(o.PI))
+	case "PermuteColumns":
+		return fmt.Sprintf("MPermCols %d %s", o.T, ZList(o.PI))
+	case "SymPerm":
+		return fmt.Sprintf("MSymPerm %d %s", o.T, ZList(o.PI))
 	case "IterFrom":
-		return fmt.Sprintf("MIterFrom %d %s %s", o.T, Z(o.I), Z(o.J))
+		return fmt.Sprintf("M2 (MIterFrom %d %s %s)", o.T, Z(o.I), Z(o.J))
 	case "IterFromPart":
-		return fmt.Sprintf("MIterFromPart %d %s %s %d", o.T, Z(o.I), Z(o.J), o.X)
+		return fmt.Sprintf("M2 (MIterFromPart %d %s %s %d)", o.T, Z(o.I), Z(o.J), o.X)
 	}
-	return "MB (" + coqMOpBase(o) + ")"
+	return "M2 (MB (" + coqMOpBase(o) + "))"
 }
 func coqMOpBase(o MOp) string {
 	switch o.Op {
@@ -414,21 +453,22 @@ func coqMCase(c MCase) string {
 	return "(" + List(ops) + ",\n   " + List(outs) + ")"
 }
 
-const hdrMat = "From Coq Require Import ZArith List Bool. Import ListNotations.\nFrom ADV Require Import C11.Model C11.ModelMat C11.CorrMat C11.DenseMat C11.ModelMatFrom C11.DenseMatFrom C11.CorrMat3.\nOpen Scope Z_scope.\n"
+const hdrMat = "From Coq Require Import ZArith List Bool. Import ListNotations.\nFrom ADV Require Import C11.Model C11.ModelMat C11.CorrMat C11.DenseMat C11.ModelMatFrom C11.DenseMatFrom C11.ModelMatPerm C11.DenseMatPerm C11.CorrMat4.\nOpen Scope Z_scope.\n"
 
-const ruleMat = "random histories (<= 30 ops, <= 4 whole sparse matrices of dims 0..5 x 0..5 incl. 0xn, nx0, 1xn, nx1, non-square; values in -8..8 kept below 100 in absolute value; element type drawn from all nine sparse matrix types, float64/int/real64 get half) over NewSparseMatrix(incl. duplicate and zero-valued positions)/At/SetAt(incl. zeros)/ConstAt/Set(sparse incl. itself and its own T()|dense)/Reset/SetIdentity/Swap/SwapRows/SwapColumns/T/Tip/Clone/ConstIterator(full|partial)/ConstIteratorFrom(i,j) and IteratorFrom(i,j) (full loop | abandoned after 0..3 visits; two of three aimed at a pending zero: start key q <= p, p a stored zero or value-less index key and the first index key at/after q; compound PendFrom = create a pending zero by SetAt(0) | At() | Reset | Map x*0 | Set(dense with zeros) | SetIdentity, then start there)/Map/MapSet/Reduce/Dims/Row/Col/Diag; 1 in 5 histories also draws malformed ops (out-of-range indices, dimension mismatch in Set, SwapRows/SwapColumns/Diag on non-square, constructor with out-of-range position or unequal slice lengths); a case is non-trivial iff it contains >= 6 mutating ops, >= 1 Set, >= 1 re-keying op (Swap/SwapRows/SwapColumns/T/Tip) and some matrix held a stored zero at some step, or it starts >= 1 iteration in the middle ON a pending zero and has >= 4 mutating ops; distinct = distinct (type, op list)"
+const ruleMat = "random histories (<= 30 ops, <= 4 whole sparse matrices of dims 0..5 x 0..5 incl. 0xn, nx0, 1xn, nx1, non-square; values in -8..8 kept below 100 in absolute value; element type drawn from all nine sparse matrix types, float64/int/real64 get half) over NewSparseMatrix(incl. duplicate and zero-valued positions)/At/SetAt(incl. zeros)/ConstAt/Set(sparse incl. itself and its own T()|dense)/Reset/SetIdentity/Swap/SwapRows/SwapColumns/PermuteRows/PermuteColumns/SymmetricPermutation (pi a random permutation | in-range non-permutation | longer than n; on non-square matrices: error)/T/Tip/Clone/ConstIterator(full|partial)/ConstIteratorFrom(i,j) and IteratorFrom(i,j) (full loop | abandoned after 0..3 visits; two of three aimed at a pending zero: start key q <= p, p a stored zero or value-less index key and the first index key at/after q; compound PendFrom = create a pending zero by SetAt(0) | At() | Reset | Map x*0 | Set(dense with zeros) | SetIdentity, then start there)/Map/MapSet/Reduce/Dims/Row/Col/Diag (each followed by a write of 77 to every stored element of the returned vector: it must be invisible in the world); 1 in 5 histories also draws malformed ops (out-of-range indices, dimension mismatch in Set, SwapRows/SwapColumns/Diag on non-square, permutations with pi[i] = n (passes the guard, panics in mid-loop) | pi[i] = n+1 | pi[i] = -1 (error in mid-loop) | pi too short (panic after n-1 iterations), constructor with out-of-range position or unequal slice lengths); a case is non-trivial iff it contains >= 6 mutating ops, >= 1 Set, >= 1 re-keying op (Swap/SwapRows/SwapColumns/Permute*/T/Tip) and some matrix held a stored zero at some step, or it starts >= 1 iteration in the middle ON a pending zero and has >= 4 mutating ops, or its in-range permutations perform >= 2 row/column exchanges and it has >= 4 mutating ops; distinct = distinct (type, op list)"
 
 // ---------------------------------------------------------------- generator
 
 type mstats struct {
 	mut, set, rekey int
+	permSwaps       int // row / column exchanges performed by in-range PermuteRows / PermuteColumns / SymmetricPermutation
 	pendFrom        int // iterations started (IteratorFrom) with a pending zero as the first index key at/after the start
 	quirk           bool
 	bad             int
 }
 
 func (s mstats) nontrivial() bool {
-	return s.mut >= 6 && s.set >= 1 && s.rekey >= 1 && s.quirk || s.pendFrom >= 1 && s.mut >= 4
+	return s.mut >= 6 && s.set >= 1 && s.rekey >= 1 && s.quirk || s.pendFrom >= 1 && s.mut >= 4 || s.permSwaps >= 2 && s.mut >= 4
 }
 
 const maxMats = 4
@@ -632,8 +672,8 @@ func genMatCase(r *Rng, tn string, withBad bool, cw *CaseWriter) (MCase, mstats)
 				}
 				kinds := []string{"New", "At", "SetAt", "ConstAt", "Set", "Reset", "SetIdentity", "Swap", "SwapRows", "SwapColumns",
 					"T", "Tip", "Clone", "Iterate", "IterPart", "MapMul", "MapSetMul", "ReduceSum", "Dims", "Row", "Col", "Diag",
-					"IterFrom", "IterFromPart", "PendFrom"}
-				weights := []int{5, 4, 16, 4, 10, 2, 4, 8, 3, 3, 4, 3, 3, 6, 3, 3, 2, 2, 1, 2, 2, 1, 5, 3, 6}
+					"IterFrom", "IterFromPart", "PendFrom", "PermuteRows", "PermuteColumns", "SymPerm"}
+				weights := []int{5, 4, 16, 4, 10, 2, 4, 8, 3, 3, 4, 3, 3, 6, 3, 3, 2, 2, 1, 2, 2, 1, 5, 3, 6, 3, 3, 3}
 				k := kinds[r.Pick(weights)]
 				o = MOp{Op: k, T: t}
 				switch k {
@@ -723,6 +763,53 @@ func genMatCase(r *Rng, tn string, withBad bool, cw *CaseWriter) (MCase, mstats)
 						o.I, o.J = 0, 0 // 0 x 0: no loop iteration, returns nil
 					default:
 						o.I, o.J = int64(r.Intn(rows)), int64(r.Intn(rows))
+					}
+				case "PermuteRows", "PermuteColumns", "SymPerm":
+					if (rows != cols || rows < 2) && r.Intn(4) != 0 {
+						// prefer a square matrix on which exchanges can happen
+						var sq []int
+						for u := range obs {
+							if obs[u].Rows == obs[u].Cols && obs[u].Rows >= 2 {
+								sq = append(sq, u)
+							}
+						}
+						if len(sq) > 0 {
+							t2 := sq[r.Intn(len(sq))]
+							o.T = t2
+							rows, cols = obs[t2].Rows, obs[t2].Cols
+						}
+					}
+					n := rows
+					switch {
+					case rows != cols:
+						// answered by an error, nothing changes: part of the valid stream too (rarely)
+						if !bad && r.Intn(3) != 0 {
+							return o, false
+						}
+						o.PI = perm(r, rows)
+					case bad && n > 0:
+						o.Bad = true
+						o.PI = perm(r, n)
+						switch r.Intn(4) {
+						case 0: // pi[i] = n passes the guard `pi[i] > n` and panics in index() in mid-loop
+							o.PI[r.Intn(n)] = int64(n)
+						case 1: // "invalid permutation" returned in mid-loop: the swaps done so far stay
+							o.PI[r.Intn(n)] = int64(n) + 1
+						case 2:
+							o.PI[r.Intn(n)] = -1
+						case 3: // too short: pi[i] panics (index out of range) after n-1 iterations
+							o.PI = o.PI[:n-1]
+						}
+					default:
+						o.PI = perm(r, n)
+						switch r.Intn(5) {
+						case 0: // not a permutation: any in-range entries are accepted and swapped
+							for i := range o.PI {
+								o.PI[i] = int64(r.Intn(n))
+							}
+						case 1: // longer than n: the extra entries are never read
+							o.PI = append(o.PI, int64(n)+3, -5)
+						}
 					}
 				case "IterPart":
 					o.I = int64(r.Range(0, 4))
@@ -857,8 +944,34 @@ func genMatCase(r *Rng, tn string, withBad bool, cw *CaseWriter) (MCase, mstats)
 			count("malformed")
 		}
 		switch o.Op {
-		case "SetAt", "Set", "Reset", "SetIdentity", "Swap", "SwapRows", "SwapColumns", "Tip", "MapMul", "MapSetMul", "At", "T":
+		case "SetAt", "Set", "Reset", "SetIdentity", "Swap", "SwapRows", "SwapColumns", "Tip", "MapMul", "MapSetMul", "At", "T",
+			"PermuteRows", "PermuteColumns", "SymPerm":
 			st.mut++
+		}
+		if (o.Op == "PermuteRows" || o.Op == "PermuteColumns" || o.Op == "SymPerm") && o.T < len(obs) && obs[o.T].Rows == obs[o.T].Cols {
+			ex := 0
+			for i := 0; i < obs[o.T].Rows && i < len(o.PI); i++ {
+				if o.PI[i] > int64(i) {
+					ex++
+				}
+			}
+			if ex > 0 && !o.Bad {
+				st.permSwaps += ex
+				count("perm:exchanging")
+			} else if !o.Bad {
+				count("perm:identity-loop")
+			}
+			isPerm := len(o.PI) == obs[o.T].Rows
+			seen := map[int64]bool{}
+			for _, p := range o.PI {
+				if seen[p] || p < 0 || p >= int64(obs[o.T].Rows) {
+					isPerm = false
+				}
+				seen[p] = true
+			}
+			if !isPerm && !o.Bad {
+				count("perm:in-range-non-permutation-or-longer")
+			}
 		}
 		switch o.Op {
 		case "Set":
@@ -870,7 +983,7 @@ func genMatCase(r *Rng, tn string, withBad bool, cw *CaseWriter) (MCase, mstats)
 			} else {
 				count("set:sparse")
 			}
-		case "Swap", "SwapRows", "SwapColumns", "T", "Tip":
+		case "Swap", "SwapRows", "SwapColumns", "T", "Tip", "PermuteRows", "PermuteColumns", "SymPerm":
 			st.rekey++
 		}
 	}
@@ -1009,6 +1122,19 @@ func minRange(o MOp, sh []shadow) bool {
 		return s.r == s.c
 	case "MapMul", "MapSetMul":
 		return true
+	case "PermuteRows", "PermuteColumns", "SymPerm":
+		if s.r != s.c {
+			return true // answered by an error, nothing changes
+		}
+		if len(o.PI) < s.r {
+			return false
+		}
+		for i := 0; i < s.r; i++ {
+			if o.PI[i] < 0 || o.PI[i] >= int64(s.r) {
+				return false
+			}
+		}
+		return true
 	}
 	return true
 }
@@ -1140,6 +1266,32 @@ func mpropCheck(c MCase) (fail string, at int) {
 					s.v[a], s.v[b] = s.v[b], s.v[a]
 				}
 			}
+		case "PermuteRows", "PermuteColumns", "SymPerm":
+			// plain dense reading: for i = 0..n-1, exchange rows (columns; rows then columns) i and
+			// pi[i] whenever pi[i] > i
+			s := sh[o.T]
+			if s.r != s.c {
+				expK = K_ERR
+			} else {
+				for i := 0; i < s.r; i++ {
+					p := int(o.PI[i])
+					if p <= i {
+						continue
+					}
+					if o.Op != "PermuteColumns" {
+						for q := 0; q < s.c; q++ {
+							a, b := i*s.c+q, p*s.c+q
+							s.v[a], s.v[b] = s.v[b], s.v[a]
+						}
+					}
+					if o.Op != "PermuteRows" {
+						for q := 0; q < s.r; q++ {
+							a, b := q*s.c+i, q*s.c+p
+							s.v[a], s.v[b] = s.v[b], s.v[a]
+						}
+					}
+				}
+			}
 		case "T":
 			sh = append(sh, sh[o.T].transpose())
 		case "Tip":
@@ -1229,6 +1381,9 @@ func mpropCheck(c MCase) (fail string, at int) {
 			if !eqList(vo.Reads, vecExp) {
 				return fmt.Sprintf("op %d %s: result vector reads %v, the dense model gives %v", k, o.Op, vo.Reads, vecExp), k
 			}
+			// the caller now writes to the vector it was given: a plain dense Row/Col/Diag is a copy,
+			// no matrix may change (checked by the comparison of all matrices with their shadows below)
+			writeThrough(vecGot)
 		}
 		obs, _ := w.observe()
 		if len(obs) != len(sh) {
@@ -1342,6 +1497,18 @@ func mshrink(c MCase) MCase {
 				try(n)
 			}
 		}
+		if o.Op == "PermuteRows" || o.Op == "PermuteColumns" || o.Op == "SymPerm" {
+			for i := range o.PI {
+				cur := ops[k]
+				if cur.PI[i] == int64(i) {
+					continue
+				}
+				n := cur
+				n.PI = cp(cur.PI)
+				n.PI[i] = int64(i)
+				try(n)
+			}
+		}
 		if o.Op == "Set" && o.U < 0 {
 			for i := range o.XS {
 				cur := ops[k]
@@ -1367,12 +1534,21 @@ func mathunt(o Opts) {
 		Tried   int    `json:"tried"`
 	}
 	var r res
-	report := func(c MCase) {
-		c = mshrink(c)
+	// a failing input must REPLAY (see hunt in oracle.go)
+	report := func(c0 MCase) bool {
+		c0.Outs = nil
+		c := mshrink(c0)
 		f, at := mpropCheck(c)
+		if f == "" {
+			c = c0
+			if f, at = mpropCheck(c); f == "" {
+				return false
+			}
+		}
 		r.Found, r.Failure, r.At = true, f, at
 		c.Outs = nil
 		r.Case = c
+		return true
 	}
 	done := false
 	if o.Replay != "" {
@@ -1388,9 +1564,9 @@ func mathunt(o Opts) {
 			for _, c := range rp.Cases {
 				r.Tried++
 				if f, _ := mpropCheck(c); f != "" {
-					report(c)
-					done = true
-					break
+					if done = report(c); done {
+						break
+					}
 				}
 			}
 		}
@@ -1405,8 +1581,7 @@ func mathunt(o Opts) {
 			c, _ := genMatCase(rng.Split(), tn, false, nil)
 			r.Tried++
 			if f, _ := mpropCheck(c); f != "" {
-				report(c)
-				done = true
+				done = report(c)
 			}
 		}
 	}
@@ -1453,8 +1628,8 @@ func matMain(o Opts) {
 		}
 		c := rp.Case
 		c.Outs = mexecute(c)
-		w := NewCaseWriter(o.Out, "replay_mat", hdrMat, "mism_mat3", 1000)
-		w.Type = "mcase3"
+		w := NewCaseWriter(o.Out, "replay_mat", hdrMat, "mism_mat4", 1000)
+		w.Type = "mcase4"
 		w.Add(coqMCase(c), c, "replay", true)
 		w.Flush()
 		return
@@ -1464,8 +1639,8 @@ func matMain(o Opts) {
 		corpus = o.Extra[4:]
 	}
 	per := 24
-	w := NewCaseWriter(o.Out, "mat", hdrMat, "mism_mat3", per)
-	w.Type = "mcase3"
+	w := NewCaseWriter(o.Out, "mat", hdrMat, "mism_mat4", per)
+	w.Type = "mcase4"
 	w.Rule = ruleMat
 	for _, c := range readMatCorpus(corpus) {
 		c.Mat = true
